@@ -21,7 +21,9 @@
      (BlockReference.__call__).
    Scoping as in EscLang.v (dynamic environments, naming discipline of the generator); in
    addition: included templates contain no block tags, child templates consist of block tags
-   only, library templates of macros only, super() occurs directly in block bodies. *)
+   only, library templates of macros only and without autoescape blocks (the library module's context
+   flag is then its static setting also for re-entrant calls through caller()), super() occurs
+   directly in block bodies. *)
 From Coq Require Import List NArith Bool.
 From JV Require Import Model.EscMarkup.
 Import ListNotations.
